@@ -48,11 +48,11 @@ def gen_cfg(rng, deterministic=False, averaging_p=0.3, noise_p=0.25, box_p=0.35,
         up.pop("init.run_in_parallel", None)
         up.pop("init.random_directions_make_orthogonal", None)
         if "rare" in allow:
-            gen.rare_options(up, n, p_block=0.5, proj=True)
+            gen.rare_options(up, n, p_block=0.5, proj=True, npt=npt)
     elif v < box_p + proj_p + reg_p:
         cfg["reg"] = dict(type=gen.pick(rng, ["l1", "l2"]), lam=float(10.0 ** rng.uniform(-2, 0)))
         if "rare" in allow:
-            gen.rare_options(up, n, p_block=0.5, reg=True)
+            gen.rare_options(up, n, p_block=0.5, reg=True, npt=npt)
         args["maxfun"] = min(args["maxfun"], 30)
         if r() < 0.4:
             box = gen.gen_box(rng, n, scaling_p=0.0, place_p=0.3, one_sided_p=0.0)
